@@ -272,7 +272,8 @@ def setup():
 
 
 # ------------------------------------------------------------------ cases
-PIPE_ORDER = ["recompile", "ttx", "fea", "subset", "instance", "build", "merge", "cu2qu"]
+PIPE_ORDER = ["recompile", "ttx", "tablexml", "fea", "subset", "instance", "build", "merge", "cu2qu"]
+AAT_TAGS = {"morx", "mort", "kerx", "ankr", "lcar", "opbd", "prop", "feat", "bsln", "trak", "gcid", "ltag", "just", "cidg", "Zapf"}
 MERGE_PAIRS = [
     ["ttx/data/TestTTF.ttf", "ttLib/data/TestTTF-Regular.ttx"],
     ["subset/data/TestTTF-Regular.ttx", "ttLib/data/Test-Regular.ttf"],
@@ -307,10 +308,32 @@ def _jobs(tier, seed, rnd):
     aots = [r for r in fonts if "/aots/" in r["path"]]
     bins = [r for r in nonaots if r["kind"] == "bin" and r["member"] is None]
     ttxs = [r for r in nonaots if r["kind"] == "ttx"]
-    for r in pick(bins, 14) + pick(aots, 40 if T else 4):
-        by["recompile"].append({"pipeline": "recompile", "input": r["path"], "lazy": None, "perm": seed})
-    for r in pick(ttxs, 26):
-        by["ttx"].append({"pipeline": "ttx", "input": r["path"]})
+    # fonts carrying AAT tables (compiled from dicts/sets of glyph names) are always part of the sweep
+    aat_bin = [r for r in bins if AAT_TAGS & set(r["tables"])]
+    aat_ttx = [r for r in ttxs if AAT_TAGS & set(r["tables"])]
+    chosen_bin = {r["path"]: r for r in aat_bin + pick(bins, 14) + pick(aots, 40 if T else 4)}
+    for path in sorted(chosen_bin):
+        by["recompile"].append({"pipeline": "recompile", "input": path, "lazy": None, "perm": seed})
+    chosen_ttx = {r["path"]: r for r in aat_ttx + pick(ttxs, 26)}
+    for path in sorted(chosen_ttx):
+        by["ttx"].append({"pipeline": "ttx", "input": path})
+    # single tables from the XML dumps kept in the repo's table tests, and generated morx state tables whose
+    # transitions carry several distinct equal-length actions (collected in a set by the compiler)
+    import re as _re
+
+    tdir = os.path.join(env.TESTS, "ttLib", "tables")
+    for fn in sorted(os.listdir(tdir)):
+        if fn.endswith("_test.py"):
+            try:
+                with open(os.path.join(tdir, fn), encoding="utf-8") as f:
+                    text = f.read()
+            except OSError:
+                continue
+            for const in _re.findall(r"^([A-Za-z0-9_]*XML[A-Za-z0-9_]*) = \[$", text, _re.M):
+                by["tablexml"].append({"pipeline": "tablexml", "source": "test:%s:%s" % (fn[:-3], const)})
+    for kind in ("morx-insertion", "morx-ligature"):
+        for k in range(40 if T else 8):
+            by["tablexml"].append({"pipeline": "tablexml", "source": "gen:" + kind, "seed": seed * 1000 + k})
     must_ttx = ["cffLib/data/TestSparseCFF2VF.ttx"]
     feas = sorted(p for p in inv["other"]["fea"] if p.startswith("feaLib/data/") and p.count("/") == 2)
     for p in feas:          # compiling a feature file takes milliseconds: all of them in both tiers
@@ -372,7 +395,7 @@ def cases(tier, seed):
         jobs = by[pipe]
         for i, j in enumerate(jobs):
             j["id"] = "%s#%d" % (pipe, i)
-        step = {"merge": 5, "build": 12, "subset": 14, "cu2qu": 6, "fea": 50, "build": 18}.get(pipe, 16)
+        step = {"merge": 5, "build": 12, "subset": 14, "cu2qu": 6, "fea": 50, "build": 18, "tablexml": 80}.get(pipe, 16)
         for i in range(0, len(jobs), step):
             add("seeds", pipeline=pipe, batch=i // step, jobs=jobs[i:i + step], seeds=seeds)
 
@@ -395,6 +418,24 @@ def cases(tier, seed):
         lo = lo[:16]
     for r in lo:
         add("lazyorder", font=r["path"], perms=5 if T else 3)
+    # fonts compiled from the corpus feature files: FeatureParams (featureNames, cvParameters, size), mixed
+    # ValueFormats, class-based subtables ... read back through the lazy OTL readers
+    feas = sorted(p for p in corpus.inventory()["other"]["fea"] if p.startswith("feaLib/data/") and p.count("/") == 2)
+    params = []
+    for p in feas:
+        try:
+            with open(os.path.join(env.TESTS, p), encoding="utf-8", errors="replace") as f:
+                txt = f.read()
+        except OSError:
+            continue
+        if any(w in txt for w in ("featureNames", "cvParameters", "parameters", "sizemenuname")):
+            params.append(p)
+    others = [p for p in feas if p not in params]
+    rnd.shuffle(others)
+    for p in params + others[: (len(others) if T else 10)]:
+        add("lazyorder", font="fea:" + p, perms=3 if T else 2)
+    for k in range(4 if T else 2):
+        add("lazyorder", font="<built>", member=k, perms=3)
     for r in corpus.fonts("bin", lambda r: r["member"] is not None)[:4 if T else 2]:
         add("lazyorder", font=r["path"], member=r["member"], perms=3)
 
@@ -537,7 +578,7 @@ def run_seeds(case, ctx, rnd):
             lab2 = next(l for l in labels if outcomes[l] != outcomes[labels[0]])
             ctx.violation({"kind": "hashseed" if "+env" not in lab2 else "environment", "pipeline": job["pipeline"],
                            "what": "outcome-differs", "outcomes": sorted(set(outcomes.values()))},
-                          "%s on %s: %s under seed %s but %s under %s" % (job["pipeline"], job.get("input") or job.get("inputs"),
+                          "%s on %s: %s under seed %s but %s under %s" % (job["pipeline"], job.get("input") or job.get("inputs") or job.get("source"),
                                                                           outcomes[labels[0]], labels[0], outcomes[lab2], lab2),
                           {"job": _job_desc(job), "outcomes": outcomes,
                            "traceback": next((r.get("tb") for r in recs.values() if r and not r["ok"]), None)})
@@ -566,7 +607,7 @@ def run_seeds(case, ctx, rnd):
                 witness["env_reads"] = runs[lab]["env"].get(jid)
             ctx.violation({"kind": kind, "pipeline": job["pipeline"], "table": first},
                           "%s on %s is not deterministic: table %r differs between run %s and run %s"
-                          % (job["pipeline"], job.get("input") or job.get("inputs"), first, labels[0], lab), witness)
+                          % (job["pipeline"], job.get("input") or job.get("inputs") or job.get("source"), first, labels[0], lab), witness)
             break
     ctx.note("pipeline jobs compared (%s)" % case["pipeline"], ok_jobs)
     ctx.sample = {"kind": "seeds", "pipeline": case["pipeline"], "jobs": len(jobs), "compared": ok_jobs,
@@ -680,20 +721,38 @@ def run_twice(case, ctx, rnd):
 
 
 # ------------------------------------------------------------------ lazy x access order (in process)
-def run_lazyorder(case, ctx, rnd):
+def _lazy_input(case):
     rel = case["font"]
     member = case.get("member")
+    if rel == "<built>":
+        return corpus.save_bytes(_built_font(member or 0))
+    if rel.startswith("fea:"):
+        from vmon import c16_pipe
+
+        os.environ.setdefault("VMON_REPO", env.REPO)
+        return c16_pipe.fea_font_bytes(rel[4:])
     if member is None:
         with open(corpus.abspath(rel), "rb") as f:
-            data = f.read()
-    else:
-        data = corpus.font_bytes(rel, member)
+            return f.read()
+    return corpus.font_bytes(rel, member)
+
+
+def run_lazyorder(case, ctx, rnd):
+    rel = case["font"]
+    try:
+        data = _lazy_input(case)
+    except (CaseTimeout, MemoryError):
+        raise
+    except Exception as e:
+        ctx.skip("input font cannot be built: %s" % type(e).__name__)
+        return
     variants = []
     for lazy in (None, True, False):
         for p in range(case["perms"]):
             variants.append((lazy, p))
     results = []
     for lazy, p in variants:
+        dump = None
         try:
             f = corpus.open_bytes(data, lazy=lazy)
             tags = [t for t in f.keys() if t != "GlyphOrder"]
@@ -701,18 +760,24 @@ def run_lazyorder(case, ctx, rnd):
                 random.Random("%s/%d/%s" % (rel, p, case["seed"])).shuffle(tags)
             for t in tags:
                 f[t]
+            if p % 2 == 0:
+                # dump before saving (the dump walks the lazily read structures in its own order)
+                s = io.StringIO()
+                f.saveXML(s)
+                dump = s.getvalue()
             out = corpus.save_bytes(f)
-            results.append((lazy, p, tags, out, None))
+            results.append((lazy, p, tags, out, None, dump))
         except (CaseTimeout, MemoryError):
             raise
         except Exception as e:
-            results.append((lazy, p, None, None, type(e).__name__))
+            results.append((lazy, p, None, None, type(e).__name__, dump))
     ref = results[0]
+    refdump = next((r[5] for r in results if r[5] is not None), None)
     for r in results[1:]:
         ctx.judged()
         if r[4] != ref[4]:
             ctx.violation({"kind": "lazy-order", "what": "outcome-differs", "outcomes": sorted({str(ref[4]), str(r[4])})},
-                          "load/decompile-all/save of %s: %s with lazy=%r order#%d but %s with lazy=%r order#%d"
+                          "load/decompile-all/(dump)/save of %s: %s with lazy=%r order#%d but %s with lazy=%r order#%d"
                           % (rel, ref[4] or "ok", ref[0], ref[1], r[4] or "ok", r[0], r[1]), {"font": rel})
             break
         if r[3] != ref[3]:
@@ -723,11 +788,17 @@ def run_lazyorder(case, ctx, rnd):
                           {"font": rel, "order_a": ref[2], "order_b": r[2], "lazy_a": ref[0], "lazy_b": r[0], "differing_tables": tags,
                            "xml_diff": xml_diff(ref[3], r[3], tags[0])})
             break
+        if r[5] is not None and refdump is not None and r[5] != refdump:
+            d = list(difflib.unified_diff(refdump.splitlines(), r[5].splitlines(), "first", "lazy=%r" % r[0], lineterm=""))[:30]
+            ctx.violation({"kind": "lazy-order", "what": "dump-differs", "lazy_differs": r[0] != ref[0]},
+                          "the TTX dump of %s read with lazy=%r order#%d differs from the dump of the same bytes read another way"
+                          % (rel, r[0], r[1]), {"font": rel, "diff": d})
+            break
         if ref[4] is None:
-            ctx.nontrivial("lo:%s:%s:%d" % (rel[-22:], r[0], r[1]))
+            ctx.nontrivial("lo:%s:%s:%s:%d" % (rel[-22:], case.get("member"), r[0], r[1]))
     if ref[4] is not None:
         ctx.skip("font does not recompile: %s" % ref[4])
-    ctx.sample = {"kind": "lazyorder", "font": rel, "variants": len(variants), "outcome": ref[4] or "ok"}
+    ctx.sample = {"kind": "lazyorder", "font": rel, "variants": len(variants), "outcome": ref[4] or "ok", "bytes": len(data)}
 
 
 # ------------------------------------------------------------------ histories
@@ -779,9 +850,11 @@ def _built_font(k):
     fea = """
         languagesystem DFLT dflt; languagesystem latn dflt;
         @UC = [A B C];
+        feature cv01 { cvParameters { FeatUILabelNameID { name "cv one"; }; Character 0x41; }; sub A by A.alt; } cv01;
+        feature ss01 { featureNames { name "Stylistic one"; }; sub B by C; } ss01;
         feature liga { sub f i by f_i; } liga;
         feature salt { sub A by A.alt; } salt;
-        feature kern { pos A B -40; pos @UC a -15; pos B [a b] <0 0 -10 0>; } kern;
+        feature kern { lookup k { pos A B -40; pos A <0 0 -30 0> b <10 0 0 0>; subtable; pos @UC a -15; pos B [a b] <0 0 -10 0>; } k; } kern;
         feature mark { markClass acutecomb <anchor 0 500> @TOP; pos base [A a] <anchor 250 700> mark @TOP; } mark;
         table GDEF { GlyphClassDef [A B C a b f i A.alt], [f_i], [acutecomb], ; } GDEF;
     """
